@@ -18,6 +18,8 @@ function and construct, never by position.
                                   element-wise patterns on args[i]
 
   @staticmethod def f(...)       hoisted to a module-level function; C.f(...) / self.f(...) / cls.f(...) redirected
+  def outer(): def g(x): ...     lambda lifting of nested functions that are only called by name (captured locals become
+                                  extra arguments)
 
   all(P(x) for x in (a, b))      P(a) and P(b)       (any -> or; literal tuple of plain names)
   x: T = e                       x = e
@@ -339,7 +341,68 @@ def _hoist_staticmethods(tree: ast.Module) -> None:
     R().visit(tree)
 
 
+def _lift_nested_functions(tree: ast.Module) -> None:
+    """lambda lifting: a function defined inside another function and only ever *called* there by name becomes a module-level
+    function `_<outer>_local_<name>`; the enclosing function's locals it reads are passed as extra arguments at each call
+    (a closure reads them at call time, so passing their values at the call is the same thing)"""
+    import builtins
+
+    def local_names(fn):
+        names = {a.arg for a in fn.args.args + fn.args.kwonlyargs}
+        if fn.args.vararg:
+            names.add(fn.args.vararg.arg)
+        if fn.args.kwarg:
+            names.add(fn.args.kwarg.arg)
+        for n in ast.walk(fn):
+            if isinstance(n, ast.Name) and isinstance(n.ctx, ast.Store):
+                names.add(n.id)
+        return names
+
+    new_top: List[ast.stmt] = []
+
+    def process(outer: ast.FunctionDef, owner_name: str):
+        nested = [g for g in outer.body if isinstance(g, ast.FunctionDef)]
+        if not nested:
+            return
+        outer_locals = local_names(outer)
+        for g in nested:
+            if g.decorator_list or any(isinstance(x, (ast.Nonlocal, ast.Global)) for x in ast.walk(g)):
+                continue
+            uses = [n for n in ast.walk(outer) if isinstance(n, ast.Name) and n.id == g.name and isinstance(n.ctx, ast.Load)]
+            calls = [c for c in ast.walk(outer) if isinstance(c, ast.Call) and isinstance(c.func, ast.Name) and c.func.id == g.name]
+            inside = {id(n) for n in ast.walk(g)}
+            if len(uses) != len(calls) or any(id(u) in inside for u in uses):
+                continue  # used as a value, or recursive: leave it
+            g_locals = local_names(g)
+            free = []
+            for n in ast.walk(g):
+                if isinstance(n, ast.Name) and isinstance(n.ctx, ast.Load) and n.id not in g_locals and n.id in outer_locals \
+                        and n.id != g.name and n.id not in free:
+                    free.append(n.id)
+            new_name = "_%s_local_%s" % (owner_name, g.name)
+            for c in calls:
+                c.func = ast.copy_location(ast.Name(id=new_name, ctx=ast.Load()), c.func)
+                if c.keywords:
+                    c.keywords += [ast.keyword(arg=f, value=ast.Name(id=f, ctx=ast.Load())) for f in free]
+                else:
+                    c.args += [ast.Name(id=f, ctx=ast.Load()) for f in free]
+            g.name = new_name
+            g.args.args = g.args.args + [ast.arg(arg=f) for f in free]
+            outer.body = [x for x in outer.body if x is not g] or [ast.copy_location(ast.Pass(), outer)]
+            new_top.append(g)
+
+    for st in list(tree.body):
+        if isinstance(st, ast.FunctionDef):
+            process(st, st.name)
+        elif isinstance(st, ast.ClassDef):
+            for m in st.body:
+                if isinstance(m, ast.FunctionDef):
+                    process(m, "%s_%s" % (st.name, m.name))
+    tree.body += new_top
+
+
 def desugar(tree: ast.Module) -> ast.Module:
+    _lift_nested_functions(tree)
     _hoist_staticmethods(tree)
     tree = Desugar().visit(tree)
     ast.fix_missing_locations(tree)
